@@ -11,17 +11,18 @@
 From IV Require Import Model.Conc.
 
 Record mbx := mkMbx { x_box : box; x_lock : option tid }.   (* write-lock holder, if parked inside *)
-Definition key := (mbname * N)%type.
-Definition key_eqb (a b : key) : bool := (fst a =? fst b) && (snd a =? snd b).
-Definition key_mem (k : key) (l : list key) : bool := existsb (key_eqb k) l.
+(** The enforcer's view of a Message object: [m_tag] stands for the object's address (the harness
+    gives every delivery its own tag), the mailbox and id are what removeMessage looks up. *)
+Definition ent := (mbname * msg)%type.
+Definition tag_mem (g : N) (l : list N) : bool := existsb (N.eqb g) l.
 
 Inductive pc :=
 | PStart (o : op)
 | PAddLock (mb : mbname) (tag size : N)                          (* mem.wm.lock *)
-| PAddVisible (mb : mbname) (id size : N)                        (* mem.add.visible, holds the lock *)
-| PAddEvict (mb : mbname) (id size : N) (m : msg) (rest : list msg) (sent : bool)
+| PAddVisible (mb : mbname) (nm : msg)                           (* mem.add.visible, holds the lock *)
+| PAddEvict (mb : mbname) (nm : msg) (m : msg) (rest : list msg) (sent : bool)
                                                                  (* mem.enfremove / mem.remove.sent *)
-| PAddRegister (mb : mbname) (id size : N) (sent : bool)         (* mem.add.register / mem.deliver.sent *)
+| PAddRegister (mb : mbname) (nm : msg) (sent : bool)            (* mem.add.register / mem.deliver.sent *)
 | PGetLock (mb : mbname) (id : N)
 | PLatestLock (mb : mbname)
 | PListLock (mb : mbname)
@@ -36,17 +37,17 @@ Inductive pc :=
 
 Inductive epc :=
 | EIdle                                             (* in select *)
-| EIncoming (k : key) (size : N) (w : tid)          (* mem.enf.incoming *)
+| EIncoming (k : ent) (w : tid)                     (* mem.enf.incoming *)
 | EEvict (w : tid)                                  (* mem.enf.evict *)
-| EEvLock (k : key) (size : N) (w : tid)            (* mem.wm.lock inside removeMessage *)
-| ERemove (k : key) (size : N) (w : tid).           (* mem.enf.remove *)
+| EEvLock (k : ent) (w : tid)                       (* mem.wm.lock inside removeMessage *)
+| ERemove (k : ent) (w : tid).                      (* mem.enf.remove *)
 
 Record enf := mkEnf {
   e_pc : epc;
-  e_all : list (key * N);     (* container/list "all", front first, with sizes *)
+  e_all : list ent;           (* container/list "all", front first *)
   e_cur : Z;                  (* curSize *)
-  e_els : list key;           (* messages whose el field is non-nil *)
-  e_rem : list key;           (* messages whose removed flag is set *)
+  e_els : list N;             (* (tags of) messages whose el field is non-nil *)
+  e_rem : list N;             (* (tags of) messages whose removed flag is set *)
   e_done : list tid           (* closed done channels not yet consumed *)
 }.
 
@@ -96,10 +97,10 @@ Definition finish_enf (w : tid) (e : enf) : enf :=
 
 (* ------------------------------------------------------------------ client steps *)
 
-Definition next_add (mb : mbname) (id size : N) (ev : list msg) : pc :=
+Definition next_add (mb : mbname) (nm : msg) (ev : list msg) : pc :=
   match ev with
-  | [] => PAddRegister mb id size false
-  | m :: r => PAddEvict mb id size m r false
+  | [] => PAddRegister mb nm false
+  | m :: r => PAddEvict mb nm m r false
   end.
 
 (** [enforcerRemove(m)]: first half (send) and second half (wait) share this shape. [k] is the
@@ -113,7 +114,7 @@ Definition enf_remove_step (s : msys) (t : tid) (mb : mbname) (m : msg) (sent : 
         if has_done t s then SOk (setpc t k (take_done t s)) else SBlocked
       else
         if is_idle s
-        then SOk (setpc t again (with_enf s (with_epc (s_enf s) (ERemove (mb, m_id m) (m_size m) t))))
+        then SOk (setpc t again (with_enf s (with_epc (s_enf s) (ERemove (mb, m) t))))
         else SBlocked
   end.
 
@@ -148,22 +149,22 @@ Definition step_thr (s : msys) (t : tid) (c : nat) : sres msys :=
         if locked mb s then SBlocked else
         let '(id, b) := box_insert tag size (x_box (getx mb s)) in
         SOk (addlog (T t, OAdd mb tag size, RId id)
-              (setpc t (PAddVisible mb id size) (setx mb (mkMbx b (Some t)) s)))
-    | PAddVisible mb id size =>
+              (setpc t (PAddVisible mb (mkMsg tag id size false)) (setx mb (mkMbx b (Some t)) s)))
+    | PAddVisible mb nm =>
         let '(b, ev) := box_cap (s_cap s) (x_box (getx mb s)) in
-        SOk (setpc t (next_add mb id size ev) (setx mb (mkMbx b None) s))
-    | PAddEvict mb id size m rest sent =>
-        enf_remove_step s t mb m sent (PAddEvict mb id size m rest true) (next_add mb id size rest)
-    | PAddRegister mb id size sent =>
+        SOk (setpc t (next_add mb nm ev) (setx mb (mkMbx b None) s))
+    | PAddEvict mb nm m rest sent =>
+        enf_remove_step s t mb m sent (PAddEvict mb nm m rest true) (next_add mb nm rest)
+    | PAddRegister mb nm sent =>
         match s_max s with
-        | None => SOk (setpc t (PDone (RId id)) s)
+        | None => SOk (setpc t (PDone (RId (m_id nm))) s)
         | Some _ =>
             if sent then
-              if has_done t s then SOk (setpc t (PDone (RId id)) (take_done t s)) else SBlocked
+              if has_done t s then SOk (setpc t (PDone (RId (m_id nm))) (take_done t s)) else SBlocked
             else
               if is_idle s
-              then SOk (setpc t (PAddRegister mb id size true)
-                                (with_enf s (with_epc (s_enf s) (EIncoming (mb, id) size t))))
+              then SOk (setpc t (PAddRegister mb nm true)
+                                (with_enf s (with_epc (s_enf s) (EIncoming (mb, nm) t))))
               else SBlocked
         end
     | PGetLock mb id =>
@@ -217,8 +218,9 @@ Definition step_thr (s : msys) (t : tid) (c : nat) : sres msys :=
 
 (* ---------------------------------------------------------------- enforcer steps *)
 
-Definition key_del (k : key) (l : list (key * N)) : list (key * N) :=
-  filter (fun e => negb (key_eqb k (fst e))) l.
+Definition ent_del (g : N) (l : list ent) : list ent :=
+  filter (fun e => negb (m_tag (snd e) =? g)) l.
+Definition esize (k : ent) : Z := Z.of_N (m_size (snd k)).
 
 Definition after_evict (max : Z) (w : tid) (e : enf) : enf :=
   if (max <? e_cur e)%Z then with_epc e (EEvict w) else finish_enf w e.
@@ -230,39 +232,39 @@ Definition step_enf (s : msys) : sres msys :=
     let e := s_enf s in
     match e_pc e with
     | EIdle => SNoop
-    | EIncoming k size w =>
-        if key_mem k (e_rem e)
+    | EIncoming k w =>
+        if tag_mem (m_tag (snd k)) (e_rem e)
         then SOk (with_enf s (finish_enf w e))            (* m.removed: skip the registration *)
         else
-          let e1 := mkEnf (e_pc e) (e_all e ++ [(k, size)]) (e_cur e + Z.of_N size)%Z
-                          (k :: e_els e) (e_rem e) (e_done e) in
+          let e1 := mkEnf (e_pc e) (e_all e ++ [k]) (e_cur e + esize k)%Z
+                          (m_tag (snd k) :: e_els e) (e_rem e) (e_done e) in
           SOk (with_enf s (after_evict max w e1))
     | EEvict w =>
         match e_all e with
         | [] => SCrash                                    (* all.Front() == nil; all.Remove(nil) *)
-        | (k, size) :: rest =>
+        | k :: rest =>
             (* all.Remove(el); m.el = nil; then removeMessage -> withMailbox: lookup, park at the lock *)
-            let e1 := mkEnf (EEvLock k size w) rest (e_cur e)
-                            (filter (fun k' => negb (key_eqb k k')) (e_els e)) (e_rem e) (e_done e) in
+            let e1 := mkEnf (EEvLock k w) rest (e_cur e)
+                            (filter (fun g => negb (g =? m_tag (snd k))) (e_els e)) (e_rem e) (e_done e) in
             SOk (with_enf (touch (fst k) s) e1)
         end
-    | EEvLock k size w =>
+    | EEvLock k w =>
         if locked (fst k) s then SBlocked else
         (* curSize -= size whether or not the message was still in its mailbox *)
-        let e1 := mkEnf (e_pc e) (e_all e) (e_cur e - Z.of_N size)%Z (e_els e) (e_rem e) (e_done e) in
-        match box_remove (snd k) (x_box (getx (fst k) s)) with
+        let e1 := mkEnf (e_pc e) (e_all e) (e_cur e - esize k)%Z (e_els e) (e_rem e) (e_done e) in
+        match box_remove (m_id (snd k)) (x_box (getx (fst k) s)) with
         | (b, Some _) =>
-            SOk (addlog (E, ORemove (fst k) (snd k), ROk)
+            SOk (addlog (E, ORemove (fst k) (m_id (snd k)), ROk)
                    (with_enf (setx (fst k) (mkMbx b None) s) (after_evict max w e1)))
         | (_, None) =>
-            SOk (addlog (E, ORemove (fst k) (snd k), RNotExist) (with_enf s (after_evict max w e1)))
+            SOk (addlog (E, ORemove (fst k) (m_id (snd k)), RNotExist) (with_enf s (after_evict max w e1)))
         end
-    | ERemove k size w =>
-        if key_mem k (e_els e)
+    | ERemove k w =>
+        if tag_mem (m_tag (snd k)) (e_els e)
         then SOk (with_enf s (finish_enf w
-                   (mkEnf (e_pc e) (key_del k (e_all e)) (e_cur e - Z.of_N size)%Z (e_els e) (e_rem e) (e_done e))))
+                   (mkEnf (e_pc e) (ent_del (m_tag (snd k)) (e_all e)) (e_cur e - esize k)%Z (e_els e) (e_rem e) (e_done e))))
         else SOk (with_enf s (finish_enf w
-                   (mkEnf (e_pc e) (e_all e) (e_cur e) (e_els e) (k :: e_rem e) (e_done e))))
+                   (mkEnf (e_pc e) (e_all e) (e_cur e) (e_els e) (m_tag (snd k) :: e_rem e) (e_done e))))
     end
   end.
 
